@@ -1,4 +1,5 @@
 import Zstd.Driver.Tables
+import Zstd.Driver.Spec
 /-
 `zmodel`: the model side of the correspondence check.  Reads one request per line on stdin
 (`<engine> <op> <args…>`), answers one line on stdout.  Stateless engines are pure functions
@@ -12,6 +13,7 @@ structure St where
 def step (st : St) (line : String) : St × String :=
   match line.trimAscii.toString.splitOn " " with
   | "tables" :: cmd :: args => (st, Tables.handle cmd args)
+  | "spec" :: cmd :: args => (st, Driver.Spec.handle cmd args)
   | _ => (st, badOp)
 
 partial def loop (h : IO.FS.Stream) (out : IO.FS.Stream) (st : St) : IO Unit := do
